@@ -35,7 +35,7 @@ bvars == <<wpc, todo, cur, rlocks, wlocked, active, spc, wr, q>>
 Init ==
   /\ nr = Cardinality(Readers) /\ nm = 1 /\ reliable = [r \in R |-> r \in Readers]
   /\ begun = [k \in K |-> 0] /\ last = [r \in R |-> [k \in K |-> 0]]
-  /\ streaming = [r \in R |-> FALSE] /\ must = [r \in R |-> {}] /\ lossy = [r \in R |-> FALSE]
+  /\ streaming = [r \in R |-> FALSE] /\ must = [r \in R |-> {}] /\ lossy = [r \in R |-> FALSE] /\ refused = {}
   /\ wpc = "idle" /\ todo = {} /\ cur = 0 /\ rlocks = 0 /\ wlocked = FALSE /\ active = {}
   /\ spc = [r \in Readers |-> "prePlay"] /\ wr = [r \in Readers |-> "none"] /\ q = [r \in Readers |-> <<>>]
 
